@@ -137,6 +137,10 @@ ImplRec ==
             why == (IF d.ok # r.ok THEN {"ok"} ELSE {})
                    \cup (IF d.ok /\ r.ok /\ d.tags # r.tags THEN {"tags"} ELSE {})
                    \cup (IF d.ok /\ r.ok /\ d.tags = r.tags /\ r.ctx >= 0 /\ gc # r.gc THEN {"gc"} ELSE {})
+                   \* over-read: a returned tag announces more (or less) data than it holds -- the decoder went on
+                   \* although the octets had run out
+                   \cup (IF r.ok /\ \E i \in 1..Len(r.tags) : LET t == r.tags[i] IN
+                                      IsValueTag(t) /\ ~IsBool(t) /\ t.lvt # Size(t.data) THEN {"overread"} ELSE {})
         IN  why = {} \/ PrintT(<<"@@", [id |-> r.id, why |-> why, ok |-> d.ok, canon |-> Canonical(r.s),
                                        tags |-> IF Len(r.s) <= 80 THEN d.tags ELSE <<>>, gc |-> gc]>>)
 =============================================================================
